@@ -75,6 +75,7 @@ type c14Side struct {
 	preSeen            map[int]int
 	rootReplaced       bool
 	nilPackageChildren int  // callbacks whose parent is the package and whose node is nil
+	nilPre, nilPost    int  // callbacks on nil child slots, per phase
 	rootMode           bool // scripts that only replace the root and abort (no other edits, so no early panics)
 }
 
@@ -130,6 +131,12 @@ func (s *c14Side) decide(phase, typ, name string, index int) uint32 {
 // on handles one callback. Returns the callback's result.
 func (s *c14Side) on(phase string, node, parent interface{}, name string, index int, cur c14Cursor) bool {
 	if refl.IsNil(node) {
+		// pre and post are both called for a nil child slot: counted per phase
+		if phase == "pre" {
+			s.nilPre++
+		} else {
+			s.nilPost++
+		}
 		// callbacks on nil optional children are not compared (go/ast has child fields dst lacks),
 		// but a package has no optional children: each of its children is one of its files
 		if pv := reflect.Indirect(reflect.ValueOf(parent)); pv.IsValid() && pv.Kind() == reflect.Struct && pv.Type().Name() == "Package" {
@@ -512,6 +519,11 @@ func c14RunMode(c *fw.Ctx, id string, droot dst.Node, aroot ast.Node, d *decorat
 	asig, _ := fw.Try(func() { ares = astutil.Apply(aroot, apre, apost) })
 	viol := func(rule, sig, detail string) {
 		c.Violate(rule, sig, fmt.Sprintf("%s (seed %d density %d%%): %s", id, seed, density, detail), src)
+	}
+	// a nil child slot gets its pre and its post callback (this script lets pre return true for
+	// nil nodes); only judged for runs that neither aborted nor panicked, as astutil is the reference
+	if dsig == "" && asig == "" && ds.ops["post-false"] == 0 && as.nilPre == as.nilPost && ds.nilPre != ds.nilPost {
+		viol("nil-slot-callbacks", "nil-slot-callbacks", fmt.Sprintf("callbacks on nil child slots: dstutil pre %d / post %d, astutil pre %d / post %d", ds.nilPre, ds.nilPost, as.nilPre, as.nilPost))
 	}
 	if ds.nilPackageChildren != as.nilPackageChildren {
 		viol("package-children", "package-children:nil", fmt.Sprintf("callbacks with the package as parent and a nil node: dstutil %d, astutil %d (a package's children are exactly its files)", ds.nilPackageChildren, as.nilPackageChildren))
